@@ -7,6 +7,7 @@ import (
 	"net"
 	"time"
 
+	"github.com/caddyserver/caddy/v2"
 	"github.com/mholt/caddy-l4/layer4"
 
 	"verif/sim/simkit"
@@ -400,4 +401,36 @@ func (r *Registry) Alias(addr string, m *ConnModel) {
 	lk()
 	r.byKey[addr] = m
 	ulk()
+}
+
+// AddrRec records the addresses and address placeholders a handler sees.
+type AddrRec struct {
+	E    *Env
+	Name string
+	Seen *[]AddrSeen
+}
+
+type AddrSeen struct {
+	Conn       string
+	Remote     string
+	Local      string
+	PHRemote   string
+	PHLocal    string
+	ConnRemote string // cx.Conn.RemoteAddr(), what the ip matchers use
+}
+
+func (a *AddrRec) Handle(cx *layer4.Connection, next layer4.Handler) error {
+	s := AddrSeen{Remote: cx.RemoteAddr().String(), Local: cx.LocalAddr().String(), ConnRemote: cx.Conn.RemoteAddr().String()}
+	if repl, ok := cx.Context.Value(layer4.ReplacerCtxKey).(*caddy.Replacer); ok {
+		if v, ok := repl.Get("l4.conn.remote_addr"); ok {
+			s.PHRemote = fmt.Sprint(v)
+		}
+		if v, ok := repl.Get("l4.conn.local_addr"); ok {
+			s.PHLocal = fmt.Sprint(v)
+		}
+	}
+	lk()
+	*a.Seen = append(*a.Seen, s)
+	ulk()
+	return next.Handle(cx)
 }
